@@ -404,7 +404,8 @@ CALLEE = {"const": "1", "name": "xs", "builtin": "len(xs)", "const_method": "'a'
           "walrus": "(w := 1)", "user_cond_raise": "checked(1)", "user_branch_effect": "branchy(1)", "user_calls_impure": "wrapper(1)",
           "user_global_write": "setter(1)", "ctor_plain": "Obj()", "ctor_impure": "Loud(1)", "shadowed_builtin": "sorted(xs)",
           "map_impure": "list(map(impure, xs))", "sorted_key_impure": "sorted(xs, key=impure)", "next_user_gen": "next(gg)",
-          "user_lambda": "lam(1)"}
+          "user_lambda": "lam(1)", "gen_consumed_list": "list(gen_fn())", "gen_consumed_any": "any(gen_fn())", "gen_consumed_sum": "sum(gen_fn())",
+          "gen_delegating_consumed": "tuple(gen_outer())"}
 CTX = {"top": "{c}", "binop": "{c} + 1" , "boolop": "xs and {c}", "compare": "{c} == 2", "call_arg": "len([{c}])",
        "comp_elt": "[{c} for _i in xs]", "comp_cond": "[_i for _i in xs if {c}]", "comp_iter": "[_i for _i in [{c}]]",
        "dictcomp_key": "{{{c}: 1 for _i in xs}}", "dictcomp_val": "{{_i: {c} for _i in xs}}", "ifexp_test": "1 if {c} else 2",
@@ -435,6 +436,10 @@ EXTRA = {
     "ctor_impure": "class Loud:\n    def __init__(self, v):\n        print('loud', v)\n\n\n",
     "shadowed_builtin": "def sorted(v):\n    print('my sorted')\n    return list(v)\n\n\n",
     "user_lambda": "lam = lambda v: print('lam', v)\n\n\n",
+    "gen_consumed_list": "def gen_fn():\n    print('gen started')\n    yield 1\n    print('gen resumed')\n    yield 2\n\n\n",
+    "gen_consumed_any": "def gen_fn():\n    print('gen started')\n    yield 0\n    print('gen resumed')\n    yield 2\n\n\n",
+    "gen_consumed_sum": "def gen_fn():\n    print('gen started')\n    yield 1\n    print('gen resumed')\n    yield 2\n\n\n",
+    "gen_delegating_consumed": "def gen_fn():\n    print('gen started')\n    yield 1\n\n\ndef gen_outer():\n    yield from gen_fn()\n\n\n",
     "next_user_gen": "def gen_fn():\n    print('gen started')\n    yield 1\n    print('gen resumed')\n    yield 2\n\n\n",
 }
 
